@@ -264,6 +264,11 @@ def fam_lifecycle(tier: str, rnd: random.Random, limit: int) -> list[dict]:
                 sc["rfaults"] = [[f] for f in faults] + [[{"k": "ans", "d": 1}]]
                 sc["family"] = "lifecycle"
                 out.append(sc)
+                if len(epochs) > 1:
+                    # the same history with the earlier loops left open (loops owned by the application, not asyncio.run)
+                    sc2 = dict(sc)
+                    sc2["keep_loops"] = True
+                    out.append(sc2)
     return out
 
 
